@@ -101,11 +101,15 @@ static const br_x509_class c05_x_vtable = { sizeof(br_x509_minimal_context), c05
 	c05_x_append, c05_x_end_cert, c05_x_end_chain, c05_x_get_pkey };
 static const br_x509_class *c05_x_obj = &c05_x_vtable;
 
+static int c05_force_kt;         /* 0: any key type; else the key type the T0 code checked before the word runs */
 static void
 c05_pkey_setup(void)
 {
 	ND_BYTES(c05_k1, sizeof c05_k1); ND_BYTES(c05_k2, sizeof c05_k2);
 	c05_pkey.key_type = ND_U8();
+	if (c05_force_kt) {
+		c05_pkey.key_type = (unsigned char)c05_force_kt;
+	}
 	if (c05_pkey.key_type == BR_KEYTYPE_EC) {
 		size_t q = ND_SIZE();
 		ASSUME(q <= sizeof c05_k1);
@@ -115,6 +119,9 @@ c05_pkey_setup(void)
 	} else {
 		size_t n = ND_SIZE(), e = ND_SIZE();
 		ASSUME(n <= sizeof c05_k1 && e <= sizeof c05_k2);
+		if (c05_force_kt == BR_KEYTYPE_RSA) {
+			n = sizeof c05_k1; e = 3;      /* concrete lengths: lets symbolic execution see "modulus shorter than 59 bytes" */
+		}
 		c05_pkey.key.rsa.n = c05_k1;
 		c05_pkey.key.rsa.nlen = n;
 		c05_pkey.key.rsa.e = c05_k2;
@@ -188,6 +195,8 @@ c05_engine_env(br_ssl_engine_context *e)
 	e->protocol_names = c05_pnames;
 	ASSUME(e->protocol_names_num <= 2);
 	/* crypto seams */
+	ND_BYTES(c05_ec_buf, sizeof c05_ec_buf);
+	ASSUME(c05_ec_buf[0] != 0);           /* first byte of a curve order / generator is non-zero */
 	c05_ec.supported_curves = ND_U32();
 	c05_ec.generator = c05_ec_generator; c05_ec.order = c05_ec_order; c05_ec.xoff = c05_ec_xoff;
 	c05_ec.mul = c05_ec_mul; c05_ec.mulgen = c05_ec_mulgen; c05_ec.muladd = c05_ec_muladd;
@@ -261,6 +270,12 @@ c05_irsapub(unsigned char *x, size_t xlen, const br_rsa_public_key *pk)
 static void
 c05_env(T0N_CTXT *c)
 {
+	/* key type of the validated server certificate, as checked by the T0 code (get-key-type-usages
+	   against the cipher suite) before these words run */
+	if (OP == C05_OP_do_rsa_encrypt) c05_force_kt = BR_KEYTYPE_RSA;
+	if (OP == C05_OP_do_static_ecdh) c05_force_kt = BR_KEYTYPE_EC;
+	if (OP == C05_OP_do_ecdh && C05_TOP(1) == 0) c05_force_kt = BR_KEYTYPE_EC;                /* static ECDH */
+	if (OP == C05_OP_verify_SKE_sig) c05_force_kt = C05_TOP(1) ? BR_KEYTYPE_RSA : BR_KEYTYPE_EC;   /* use_rsa operand */
 	c05_engine_env(&c->eng);
 	if (ND_U8() & 1) { c->client_auth_vtable = &c05_ca_obj; } else { c->client_auth_vtable = 0; }
 	c->irsapub = c05_irsapub;
@@ -270,6 +285,13 @@ c05_env(T0N_CTXT *c)
 	}
 	if (OP == C05_OP_do_ecdh) {
 		ASSUME(c->eng.iec != 0);                 /* an EC suite was negotiated */
+	}
+	/* verify-SKE-sig ( hash use_rsa sig_len ): hash identifier 0 or 2..6 (checked by the T0 code); the
+	   verifier for the negotiated suite is configured (suites without one are not offered) */
+	if (OP == C05_OP_verify_SKE_sig) {
+		ASSUME(C05_TOP(2) == 0 || (C05_TOP(2) >= 2 && C05_TOP(2) <= 6));
+		ASSUME(C05_TOP(1) ? c->eng.irsavrfy != 0 : c->eng.iecdsa != 0);
+		ASSUME(C05_TOP(1) || C05_TOP(2) != 0);          /* ECDSA: never the MD5+SHA-1 pseudo-hash */
 	}
 	/* these words run after the server chain was validated: the validator returns the key */
 	if (OP == C05_OP_do_ecdh || OP == C05_OP_do_rsa_encrypt || OP == C05_OP_do_static_ecdh
@@ -338,6 +360,7 @@ static void
 c05_env(T0N_CTXT *c)
 {
 	size_t a = ND_SIZE(), b = ND_SIZE(), o = ND_SIZE(), l = ND_SIZE();
+	if (OP == C05_OP_do_static_ecdh) c05_force_kt = BR_KEYTYPE_EC;
 	c05_engine_env(&c->eng);
 	c->policy_vtable = &c05_pol_obj;
 	if (ND_U8() & 1) { c->cache_vtable = &c05_cache_obj; } else { c->cache_vtable = 0; }
@@ -355,6 +378,11 @@ c05_env(T0N_CTXT *c)
 	ASSUME(c->ecdhe_key_len <= sizeof c->ecdhe_key);
 	ASSUME(c->hash_CV_len <= sizeof c->hash_CV);
 	ASSUME(c->hash_CV_id == 0 || (c->hash_CV_id >= 2 && c->hash_CV_id <= 6));
+	/* sign_hash_id (set from the policy handler's choice): 0xFF00 + hash id (0, 2..6) or a signature scheme */
+	ASSUME(c->sign_hash_id < 0xFF00 || (c->sign_hash_id & 0xFF) == 0 || ((c->sign_hash_id & 0xFF) >= 2 && (c->sign_hash_id & 0xFF) <= 6));
+	if (OP == C05_OP_do_ecdhe_part1) {
+		ASSUME((int32_t)C05_TOP(0) >= 0 && C05_TOP(0) <= 31);      /* curve identifier */
+	}
 	/* stated call-site preconditions */
 	if (OP == C05_OP_do_ecdhe_part1 || OP == C05_OP_do_ecdhe_part2) {
 		ASSUME(c->eng.iec != 0);                 /* an ECDHE suite was negotiated */
